@@ -15,7 +15,7 @@ import random
 import z3
 
 from vf import common, fcorpus, fdriver, fsym, pg, symx
-from vf.common import Run, pmap
+from vf.common import Run, pmap, chunks
 from vf.symx import Explorer
 
 PID = "C12"
@@ -297,16 +297,22 @@ def main(tier, seed):
     nrand = 40 if tier == "quick" else 400
     for i in range(nrand):
         progs.append(fcorpus.random_prog(rng, i))
+    # bounded-exhaustive move / overwrite patterns: sequences of <= 2 user-type assignments (thorough: every 4th of the
+    # 8470 sequences of <= 3) x yield x control exit
+    moves = fcorpus.move_patterns(2) if tier == "quick" else (fcorpus.move_patterns(2) + fcorpus.move_patterns(3)[711::4])
+    nmoves = len(moves)
+    sweep_progs = progs + (moves[::12] if tier == "quick" else moves[::5])
+    progs = progs + moves
     K, max_paths = (3, 80) if tier == "quick" else (4, 300)
-    for part in pmap("vf.checks.c12", "work", [{"progs": [p], "K": K, "max_paths": max_paths} for p in progs]):
+    for part in pmap("vf.checks.c12", "work", [{"progs": p, "K": K, "max_paths": max_paths} for p in chunks(progs, max(len(progs) // 4, 1))]):
         run.absorb(part)
     # concrete sanitizer sweep (labelled side check): the compiled module under ASan/LSan on fixed inputs
-    sweep = pmap("vf.checks.c12", "asan_sweep_one", [{"prog": p, "K": K, "n": 1 if tier == "quick" else 3} for p in progs])
+    sweep = pmap("vf.checks.c12", "asan_sweep_one", [{"prog": p, "K": K, "n": 1 if tier == "quick" else 3} for p in sweep_progs])
     run.extra["asan_sweep_runs"] = sum(x["runs"] for x in sweep)
     for x in sweep:
         for c in x["cands"]:
             run.candidates.append(c)
-    run.bounds = {"programs": len(progs), "runs_K": K, "max_paths_per_program": max_paths, "user_type_length": fcorpus.UT_LEN}
+    run.bounds = {"programs": len(progs), "move_pattern_programs": nmoves, "sanitizer_sweep_programs": len(sweep_progs), "runs_K": K, "max_paths_per_program": max_paths, "user_type_length": fcorpus.UT_LEN}
     run.selftests = selftests()
     if not all(v is True for v in run.selftests.values()):
         run.harness_errors.append("self-test failed: %r" % run.selftests)
@@ -317,7 +323,10 @@ def main(tier, seed):
         "LAPACK-backed built-ins are outside",
     ]
     return run.finish(
-        rule="%d Fortran-subset programs with user-type variables (temporaries, moves, overwrites, yields of temporaries, guarded blocks, failures, early phase "
-             "switches); each: initialize, K=%d runs, shutdown on symbolic inputs; non-trivial = at least 2 feasible step sequences" % (len(progs), K),
+        rule="%d Fortran-subset programs with user-type variables: curated + seeded random (temporaries, moves, overwrites, yields of temporaries, guarded "
+             "blocks, failures, early phase switches) + %d bounded-exhaustive move patterns (every sequence of <= 2 [thorough: a quarter of those of 3] copies / calls "
+             "over {<state>y, u, v} x yield nothing | last target | state x exit plainly | guarded, else fail | last assignment guarded | guarded fail after "
+             "the first | guarded switch); each: initialize, K=%d runs, shutdown on symbolic inputs; non-trivial = at least 2 feasible step sequences"
+             % (len(progs), nmoves, K),
         explanation="fsym symbolic execution of the emitted module with the heap model; one obligation per path (no memory error, nothing live after shutdown, no leak message)",
         classify=classify, dedup_key=lambda c: (c["prog"].get("name"), c["problem"][:50]))
